@@ -75,7 +75,7 @@ func VerifH_rr() {
 	verifAssert(verifLocksFree(), "C06,C09: round-robin pick left a lock held")
 	verifAssert(err == nil, "C09: round-robin BIND pick failed")
 	verifAssert(res.SubConn == want.subConn, "C09: round-robin BIND not handed the next channel in creation order")
-	verifAssert(verifImplies(verifRRBlocks == 0, gb.rrRefId == pre.rr+1), "C09: round-robin cursor not advanced by exactly one")
+	verifAssert(verifImplies(verifRRBlocks == 0, uint32(gb.rrRefId) == pre.rr+1), "C09: round-robin cursor not advanced by exactly one")
 	verifAssert(verifOr(w.ready(want), verifRRCtxClosed), "C09: round-robin BIND returned although its channel is not READY and its context has not ended")
 	verifAssert(verifImplies(readyAtCall, verifRRBlocks == 0), "C06,C09: round-robin BIND waited although its channel was READY")
 	if verifRRBlocks > 0 {
@@ -93,7 +93,7 @@ func VerifH_rr() {
 		}
 		verifAssert(w.cc.created == pre.created && w.cc.removedCnt == pre.removed, "C03: round-robin pick changed the pool")
 	}
-	verifObserve("cursor", uint64(gb.rrRefId))
+	verifObserve("cursor", uint64(uint32(gb.rrRefId)))
 	verifObserve("slot", uint64(w.slotIdx(want)))
 }
 
@@ -112,7 +112,7 @@ func VerifH_rrwin() {
 	verifAssume(len(w.pk.scRefs) > 0)
 	k := verifCase("k")
 	verifAssume(k >= 1 && k <= 2)
-	rr0 := gb.rrRefId
+	rr0 := uint32(gb.rrRefId)
 	verifAssume(uint64(rr0)+uint64(n*k)+1 < 1<<32 || rr0 == ^uint32(0)) // no wrap inside the window (it wraps once, by design, from its initial value)
 	ctx := &verifCtx{hasGcp: true, gcp: &gcpContext{}, done: make(chan struct{})}
 	var cnt [vR]int
@@ -139,7 +139,7 @@ func VerifH_rrwin() {
 		}
 	}
 	verifAssert(gb.scStates != nil && connectivity.Ready == 2, "sanity")
-	verifObserve("cursor", uint64(gb.rrRefId))
+	verifObserve("cursor", uint64(uint32(gb.rrRefId)))
 }
 
 // Native replay of runs made with the atomicHavoc flag: an atomic load in the code under test
